@@ -161,5 +161,35 @@ PROPS["C15"] = {
     "assumptions": ["a.append(b) is compared with 'run a then b' only when a's run ends at a's exit block and both exits have no successors"],
 }
 
+PROPS["C12"] = {
+    "quick_secs": 12,
+    "thorough_secs": 180,
+    "min_evaluations": 100000,
+    "technique": "shadow-state monitor: reference interpreter tracks the last writer of every scalar during executions; checked against reaching_definitions/use_def at every executed location; static kill-free-path and inverse-relation checks",
+    "rule": "random IL functions (<=7 blocks; loops, instructions reading several scalars or the scalar they write, guarded edges, loads/stores, "
+            "intrinsics with and without declared effects executed as deterministic havoc) x 6 executions of <=150 steps from corner-biased states. "
+            "After each executed location every last writer must be in reaching_definitions[location]; before each instruction/guarded edge the "
+            "last writer of every scalar it reads must be in use_def; every reported assignment/load must reach along a path of the independent "
+            "location graph without another assignment/load of the scalar; def_use must be exactly the inverse of use_def. Distinct = (block count, "
+            "loop?, multi-scalar read seen, self-read seen, intrinsic present).",
+    "level_text": "Sampled functions and executions; each executed location is an oracle comparison, the static half is complete per function.",
+    "level_note": "trusts harness/src/refinterp.rs (last-writer shadow) and locgraph.rs; reported stores/nops/branches in reaching definitions are outside the statement and ignored; an execution ends at an indirect branch",
+    "assumptions": ["intrinsics with declared written scalars are executed as writes of those scalars; undeclared ones as no-ops", "the function's execution ends at an indirect branch (no successor in its CFG)"],
+}
+
+PROPS["C14"] = {
+    "quick_secs": 12,
+    "thorough_secs": 180,
+    "min_evaluations": 100000,
+    "technique": "translation-validation-style lock-step monitor: input and dead_code_elimination output executed side by side in the reference interpreter, observables compared at every step",
+    "rule": "random IL functions (as C12, one in eight with blocks unreachable from the entry) -> dead_code_elimination; structure must be identical up to "
+            "operations replaced by nop; for 6 initial states on which the input runs without fault (<=400 steps) both run in lock-step: same location "
+            "path, same stores/branch/intrinsic events in order, identical scalar state at every indirect branch and intrinsic, identical final "
+            "scalars at a block without successors. Distinct = (block count, number of operations removed, load removed).",
+    "level_text": "Sampled functions and states; every step of every paired run is compared, so a wrongly removed operation is seen as soon as it matters.",
+    "level_note": "trusts harness/src/refinterp.rs; intrinsics are observable events with deterministic havoc of their declared written scalars",
+    "assumptions": ["initial states on which the input faults within 400 steps are skipped, as the statement only speaks of fault-free runs"],
+}
+
 # properties not claimed, with the reason (everything else not in PROPS is 'not built yet')
 NOT_CLAIMED = {}
